@@ -98,7 +98,7 @@ HandleBreach(st, memo, p, orc) ==
     IF IdxHas(st.rIndex, p)
     THEN LET bh == IdxHeight(st.rIndex, IdxGet(st.rIndex, p))
          IN [cls |-> "acc", conf |-> TRUE, h |-> bh, hs |-> {bh}, sent |-> FALSE]
-    ELSE IF orc[p] = "mem" /\ ~MemoHas(memo, p)
+    ELSE IF orc[p] = "mem"
     THEN [cls |-> "acc", conf |-> FALSE, h |-> st.cH, hs |-> {st.wH, st.wH + 1}, sent |-> FALSE]
     ELSE LET s == Send(st, memo, p, orc)
          IN [cls |-> CASE s.v = "ok" -> "acc" [] s.v = "rej" -> "rej" [] s.v = "res" -> "res" [] OTHER -> "norpc",
@@ -163,7 +163,8 @@ AddAppointmentF(st, who, a, orc) ==
                             ELSE \* store_triggered_appointment with dispute d = the cached transaction
                                  LET d == a.l
                                      p == Decrypt(a.blob, d)
-                                 IN IF p = NoTx THEN Out(st1, okReply, {})   \* invalid blob: charged, nothing stored
+                                 IN IF p = NoTx THEN Out(DropAppts(st1, {k}), okReply, {})   \* invalid blob: charged, nothing stored;
+                                                                                              \* a version being replaced is dropped with it
                                     ELSE LET hb == HandleBreach(st1, st1.memo, p, orc)
                                              \* stored, or updated when it is already held (held without a tracker: its
                                              \* penalty was found already on chain when the dispute was first seen)
